@@ -5,7 +5,7 @@
 From Coq Require Import List Arith Bool Lia.
 From Oras Require Import Model.CopyImpl Proofs.CopyImplBase Proofs.CopyImplInv Proofs.CopyImplInv2 Proofs.CopyImplLive
   Proofs.CopyImplDeadlock Proofs.CopyImplFault Proofs.CopyImplTerm Proofs.CopyImplSucc Proofs.CopyImplSucc2
-  Proofs.CopyImplOrder.
+  Proofs.CopyImplOrder Proofs.CopyImplNoFault.
 Import ListNotations.
 
 Theorem C04_permits_conserved : forall succ K ext roots s, Reachable succ K ext roots s ->
@@ -129,6 +129,21 @@ Theorem C02_copied_successors_done_protocol : forall succ K ext roots,
   forall n, tracker s n = DoneCopied -> forall m, In m (succ n) -> is_done (tracker s m) = true.
 Proof. exact copied_successors_done. Qed.
 Print Assumptions C02_copied_successors_done_protocol.
+
+(* No fault => nil.  The converse of C02_fault_surfaces_protocol: in an execution from the initial state
+   in which no storage step / callback fails and the caller's context is not cancelled, nothing ever
+   records a failure -- in particular the "successor not committed" arm of copyGraph.fn is unreachable
+   (every node a parent waits for was tracked by a task of its own Go frame) and no wait / region.Start /
+   dispatch sees a cancelled context -- so once the execution has ended (C02_no_deadlock + C02_terminates:
+   it does end) the top-level syncutil.Go has returned nil; C02_success_protocol then gives "every root
+   Done, copied nodes have Done successors, nothing InProgress".  This is the middle step of "re-running
+   it without faults completes the graph". *)
+Theorem C02_nofault_returns_nil_protocol : forall succ K ext roots,
+  (forall n m, In m (succ n) -> m < n) ->
+  forall ls s, run succ (init K ext roots) ls = Some s ->
+  existsb is_fault ls = false -> is_final s = true -> failed s = false /\ result s = Some false.
+Proof. exact nofault_returns_nil. Qed.
+Print Assumptions C02_nofault_returns_nil_protocol.
 
 (* ---- the hypotheses are satisfiable: a concrete DAG (4 -> 3,2 ; 3 -> 1,2 ; 2 -> 0,1), complete runs *)
 Definition ex_succ (n : nat) : list nat :=
